@@ -51,6 +51,10 @@ func insertionPoints(text string) []int {
 			if tk.Range.Start.Byte < off && off < tk.Range.End.Byte {
 				return true
 			}
+			// an unterminated block comment swallows everything up to and including EOF
+			if tk.Type == hclsyntax.TokenComment && strings.HasPrefix(string(tk.Bytes), "/*") && !strings.HasSuffix(string(tk.Bytes), "*/") && off >= tk.Range.Start.Byte {
+				return true
+			}
 		}
 		return false
 	}
@@ -136,6 +140,16 @@ func checkC18(c C18Case) Result {
 		r.Exclude("no-insertion-point")
 		return r
 	}
+	valid := false
+	for _, pt := range insertionPoints(orig) {
+		if pt == c.At {
+			valid = true
+		}
+	}
+	if !valid {
+		r.Exclude("no-insertion-point")
+		return r
+	}
 	translated := orig[:c.At] + c.Insert + orig[c.At:]
 	nLines := strings.Count(c.Insert, "\n")
 	nBytes := len(c.Insert)
@@ -160,7 +174,7 @@ func checkC18(c C18Case) Result {
 	// swallows the insertion point)
 	a, ok1 := topLevelCanon(orig, shiftIn("x"))
 	b, ok2 := topLevelCanon(translated, nil)
-	if !ok1 || !ok2 || a != b {
+	if !ok1 || !ok2 || a != b || !tokensTranslated(orig, translated, c.At, nBytes, shiftPos) {
 		r.Exclude("precondition:parser-ast-not-translated")
 		return r
 	}
@@ -234,3 +248,35 @@ func checkC18(c C18Case) Result {
 
 func TestC18(t *testing.T)        { Run(t, "C18", genC18, checkC18) }
 func TestReplay_C18(t *testing.T) { Replay(t, "C18", checkC18) }
+
+// tokensTranslated checks on the lexer that the translated file's token stream
+// is the original's (shifted) plus comment / newline tokens inside the inserted
+// region: an inserted "*/" may otherwise pair up with an earlier stray "/*".
+func tokensTranslated(orig, translated string, at, nBytes int, shiftPos func(hcl.Pos) hcl.Pos) bool {
+	t1, _ := hclsyntax.LexConfig([]byte(orig), "x", hcl.InitialPos)
+	t2, _ := hclsyntax.LexConfig([]byte(translated), "x", hcl.InitialPos)
+	var kept hclsyntax.Tokens
+	for _, tk := range t2 {
+		if tk.Range.Start.Byte >= at && tk.Range.End.Byte <= at+nBytes && tk.Type != hclsyntax.TokenEOF {
+			if tk.Type != hclsyntax.TokenComment && tk.Type != hclsyntax.TokenNewline {
+				return false
+			}
+			continue
+		}
+		kept = append(kept, tk)
+	}
+	if len(kept) != len(t1) {
+		return false
+	}
+	for i := range t1 {
+		wantStart, wantEnd := shiftPos(t1[i].Range.Start), t1[i].Range.End
+		if t1[i].Range.End.Byte > at || t1[i].Range.Start.Byte >= at {
+			wantEnd = shiftPos(wantEnd) // a token ending exactly at the insertion point stays
+		}
+		if t1[i].Type != kept[i].Type || string(t1[i].Bytes) != string(kept[i].Bytes) ||
+			wantStart != kept[i].Range.Start || wantEnd != kept[i].Range.End {
+			return false
+		}
+	}
+	return true
+}
